@@ -34,6 +34,7 @@ macro_rules! dispatch {
             "C16" => runner::$f::<props::c16::P>($($arg),*),
             "C17" => runner::$f::<props::c17::P>($($arg),*),
             "C10" => runner::$f::<props::c10::P>($($arg),*),
+            "C11" => runner::$f::<props::c11::P>($($arg),*),
             "C12" => runner::$f::<props::c12::P>($($arg),*),
             "C13" => runner::$f::<props::c13::P>($($arg),*),
             "C14" => runner::$f::<props::c14::P>($($arg),*),
@@ -112,6 +113,7 @@ fn main() {
             hooks::install();
             match kind.as_str() {
                 "c13" => props::c13::child_main(Path::new(&file)),
+                "c11" => props::c11::child_main(Path::new(&file)),
                 other => {
                     eprintln!("unknown child kind {other}");
                     2
